@@ -522,7 +522,7 @@ Qed.
 End Run.
 
 (* ---- 4. the domain: what row_ok gives for a row without mid-row codes ------------------------------------------ *)
-Lemma row_ok_style : forall r, row_ok r = true -> 0 <= rw_style r < 16 /\ (rw_indent r = 0 \/ rw_style r <= 1).
+Lemma row_ok_style : forall r, row_ok r = true -> 0 <= rw_style r < 18 /\ (rw_indent r = 0 \/ rw_style r <= 1).
 Proof.
   intros r. unfold row_ok. cbv zeta. generalize (cells_of r) (items_ok (rw_items r) None). intros cs io H.
   repeat (apply andb_true_iff in H; let H' := fresh "H" in destruct H as [H H']).
@@ -568,7 +568,7 @@ Qed.
 
 Lemma rich_facts : forall r, rich_row_any r = true ->
   1 <= rw_row r <= 15 /\ In (rw_indent r) indents_608 /\ 0 <= rw_tab r <= 3 /\
-  0 <= rw_style r < 16 /\ (rw_indent r = 0 \/ rw_style r <= 1) /\
+  0 <= rw_style r < 18 /\ (rw_indent r = 0 \/ rw_style r <= 1) /\
   aok (flat_map atoks_of_item (rw_items r)) [] None /\ asem (flat_map atoks_of_item (rw_items r)) [] = rich_text r /\
   cells_of r = map (fun c => Cell c (rw_ital r)) (rich_text r) /\ Forall (fun c => gcharb c = true) (rich_text r) /\
   rich_text r <> [] /\ is_space (last (rich_text r) 0) = false /\
@@ -594,12 +594,14 @@ Proof.
 Qed.
 
 (* ---- 5. the preamble address code of a row: any colour / underline / italics ---------------------------------------- *)
-Lemma pac_attr_facts2 : forall r, In (rw_indent r) indents_608 -> 0 <= rw_style r < 16 -> (rw_indent r = 0 \/ rw_style r <= 1) ->
+Lemma pac_attr_facts2 : forall r, In (rw_indent r) indents_608 -> 0 <= rw_style r < 18 -> (rw_indent r = 0 \/ rw_style r <= 1) ->
   0 <= pac_attr r < 32 /\ pac_col (pac_attr r) = rw_indent r /\ pac_italics (pac_attr r) = rw_ital r.
 Proof.
   intros [rr ind tab sty its]. unfold pac_attr, rw_ital. cbn [rw_indent rw_style]. intros Hin Hs Hor.
   unfold indents_608 in Hin. cbn [In] in Hin. destruct Hin as [<-|Hin].
-  - cbn [Z.eqb andb]. unfold pac_col. replace (sty <? 16) with true by lia. split; [lia|split; reflexivity].
+  - cbn [Z.eqb andb]. unfold pac_col. destruct (sty <? 16) eqn:E16; [split; [lia|split; reflexivity]|].
+    (* the indent form of the preamble address code with indent 0 (attributes 16 / 17: white, optional underline) *)
+    assert (Hs' : sty = 16 \/ sty = 17) by lia. destruct Hs' as [->| ->]; (split; [lia|split; vm_compute; reflexivity]).
   - repeat (destruct Hin as [<-|Hin];
             [assert (Hs' : sty = 0 \/ sty = 1) by lia; destruct Hs' as [->| ->];
              (split; [split; [apply Z.leb_le|apply Z.ltb_lt]; vm_compute; reflexivity|split; vm_compute; reflexivity])|]).
